@@ -98,6 +98,27 @@ impl FixtureDatabase {
                         }
                     }
                 }
+                Stmt::TryStar(try_stmt) => {
+                    if self.contains_yield(&try_stmt.body)
+                        || self.contains_yield(&try_stmt.orelse)
+                        || self.contains_yield(&try_stmt.finalbody)
+                    {
+                        return true;
+                    }
+                    for handler in &try_stmt.handlers {
+                        let rustpython_parser::ast::ExceptHandler::ExceptHandler(h) = handler;
+                        if self.contains_yield(&h.body) {
+                            return true;
+                        }
+                    }
+                }
+                Stmt::Match(match_stmt) => {
+                    for case in &match_stmt.cases {
+                        if self.contains_yield(&case.body) {
+                            return true;
+                        }
+                    }
+                }
                 _ => {}
             }
         }
